@@ -800,7 +800,7 @@ func (r *runner) exec(pos []string, kv map[string]string, v func(string, ...inte
 		if resync {
 			// the store handed the output to another id inside the truncated second; follow it so that the
 			// finding is reported once
-			r.jled.leases[op] = oLease{id, r.now + d}
+			r.jled.leases[op] = oLease{id, granted(r.now, d)}
 		}
 		return reply
 	case "unlock":
